@@ -200,7 +200,7 @@ def histories(run, names, num, depth, accept, part='history', max_iters=(1, 2, 3
             run.count(key=(part, e['sid'], e['seq']), nontrivial=True)
     if min(ops.get('SetPose', 0), ops.get('SetMeas', 0), ops.get('OptCall', 0), ops.get('Query', 0)) == 0:
         raise RuntimeError('vacuity guard (histories): %r' % ops)
-    run.notes[part] = {'sessions': len(sessions), 'events_by_operation': ops}
+    run.notes[part] = {'sessions': len(sessions), 'events_by_operation': ops, 'fresh_comparisons_unavailable': sum(x.fresh_unavailable for x in sessions.values())}
     run.replayed += len(sessions)
     n = 0
     for sid, seq, clause in rejects:
